@@ -173,6 +173,26 @@ func settingsModel(c *Ctx, report bool) *settingsModelT {
 						}
 					}
 				}
+				// `assign(&settings.Sec.Leaf, secRaw["key"])`: a helper that stores the converted value through the
+				// pointer only when the conversion succeeded
+				if es, ok := st.(*ast.ExprStmt); ok {
+					if call, ok := es.X.(*ast.CallExpr); ok && len(call.Args) == 2 {
+						if u, ok := ast.Unparen(call.Args[0]).(*ast.UnaryExpr); ok && u.Op == token.AND {
+							if pth, ok := pathOf(u.X, root, prefix); ok && pth != prefix {
+								if ix, ok := ast.Unparen(call.Args[1]).(*ast.IndexExpr); ok && info.Uses[identOf(ix.X)] == mapObj && mapObj != nil {
+									if key, isConst := stringConst(info, ix.Index); isConst {
+										if o, isFn := calleeOf(info, call).(*types.Func); isFn {
+											if conv, guarded, ok := guardedPointerStore(c.P, info, c.P.declOf[o]); ok {
+												assigns = append(assigns, settingsAssign{section, key, conv, pth, guarded, call.Pos()})
+												continue
+											}
+										}
+									}
+								}
+							}
+						}
+					}
+				}
 				// assignments to settings outside an ok-guard
 				ast.Inspect(st, func(x ast.Node) bool {
 					if as, ok := x.(*ast.AssignStmt); ok {
@@ -459,6 +479,59 @@ func ruleSettings(c *Ctx) {
 	}
 	ruleConverters(c)
 	ruleSettingsTotal(c)
+}
+
+// guardedPointerStore: decl is `func(dst *T, raw any) { if v, ok := conv(raw); ok { *dst = v } }`; returns the
+// converter's name and whether the store is guarded by the converter's ok result.
+func guardedPointerStore(p *Prog, info *types.Info, decl *ast.FuncDecl) (string, bool, bool) {
+	if decl == nil || decl.Body == nil || decl.Type.Params == nil {
+		return "", false, false
+	}
+	var ps []types.Object
+	for _, fl := range decl.Type.Params.List {
+		for _, n := range fl.Names {
+			ps = append(ps, info.Defs[n])
+		}
+	}
+	if len(ps) != 2 {
+		return "", false, false
+	}
+	conv, stores, guarded := "", 0, true
+	var visit func(list []ast.Stmt, okObj, valObj types.Object)
+	visit = func(list []ast.Stmt, okObj, valObj types.Object) {
+		for _, st := range list {
+			switch x := st.(type) {
+			case *ast.IfStmt:
+				if init, ok := x.Init.(*ast.AssignStmt); ok && len(init.Lhs) == 2 && len(init.Rhs) == 1 {
+					if call, ok := ast.Unparen(init.Rhs[0]).(*ast.CallExpr); ok && len(call.Args) == 1 && info.Uses[identOf(call.Args[0])] == ps[1] {
+						if o := calleeOf(info, call); o != nil {
+							conv = o.Name()
+						}
+						ok2 := info.Defs[identOf(init.Lhs[1])]
+						if id, isId := ast.Unparen(x.Cond).(*ast.Ident); isId && info.Uses[id] == ok2 && x.Else == nil {
+							visit(x.Body.List, ok2, info.Defs[identOf(init.Lhs[0])])
+							continue
+						}
+					}
+				}
+				visit(x.Body.List, nil, nil) // stores in here count as unguarded
+			case *ast.AssignStmt:
+				for i, l := range x.Lhs {
+					if star, ok := ast.Unparen(l).(*ast.StarExpr); ok && info.Uses[identOf(star.X)] == ps[0] {
+						stores++
+						if okObj == nil || i >= len(x.Rhs) || info.Uses[identOf(x.Rhs[i])] != valObj {
+							guarded = false
+						}
+					}
+				}
+			}
+		}
+	}
+	visit(decl.Body.List, nil, nil)
+	if stores == 0 || conv == "" {
+		return "", false, false
+	}
+	return conv, guarded, true
 }
 
 // returnsParam: every return statement of the function returns the given parameter itself.
